@@ -34,6 +34,8 @@ REWRITES = {
     "joined lines / other indentation": lambda s: re.sub(r"\n[ \t]+(?!#)", "\n  ", re.sub(r",\n\s+", ", ", s)),
     "int loop counters": lambda s: re.sub(r"for \(IndexType (\w+) = 0;", r"for (int \1 = 0;", s),
     "comments added": lambda s: re.sub(r";\n", "; // touched\n", s),
+    "while (c) -> for (; c;)": lambda s: re.sub(r"\bwhile \(((?:[^()]|\([^()]*\))+)\)(\s*\{)", r"for (; \1;)\2", s),
+    "TAPKEE_VERIF hook blocks added": lambda s: re.sub(r"(\n[ \t]*zeroMean\(Y, N, no_dims\);\n)", r"\1#ifdef TAPKEE_VERIF\n    if (extra_observer()) extra_observer()(iter);\n#endif\n", s),
     "x == false -> !x": lambda s: re.sub(r"\((\w+(?:\[\w+\])?) == false\)", r"(!\1)", s),
 }
 
